@@ -11,6 +11,7 @@ import (
 	"sync"
 	"time"
 
+	connect "github.com/bufbuild/connect-go"
 	"verif.local/harness/ev"
 	"verif.local/harness/gen"
 	"verif.local/harness/refcodec"
@@ -183,6 +184,94 @@ func c10ClientEncoding(run *ev.Run) {
 			run.Sample(map[string]any{"part": "client", "protocol": protocol, "deadline_in": d.String(), "header": vals[0]})
 		}
 	})
+	// a retrying client interceptor: the same request goes down the chain more
+	// than once; every attempt's timeout must fit the time remaining *then*
+	for _, protocol := range svc.Protocols {
+		for _, total := range []time.Duration{3 * time.Second, 40 * time.Second} {
+			key := fmt.Sprintf("c10/client-retry/%s/d=%d", protocol, int64(total))
+			if !run.Want(key) {
+				continue
+			}
+			type attempt struct {
+				hdr []string
+				t   time.Time
+			}
+			var mu sync.Mutex
+			var attempts []attempt
+			name := timeoutHeader(protocol)
+			cn := &wire.Canned{Background: true, Respond: func(req *http.Request, _ []byte) (*http.Response, error) {
+				mu.Lock()
+				attempts = append(attempts, attempt{hdr: req.Header.Values(name), t: time.Now()})
+				mu.Unlock()
+				return nil, fmt.Errorf("verif: attempt fails")
+			}}
+			retry := connect.UnaryInterceptorFunc(func(next connect.UnaryFunc) connect.UnaryFunc {
+				return func(ctx context.Context, req connect.AnyRequest) (connect.AnyResponse, error) {
+					var res connect.AnyResponse
+					var err error
+					for a := 0; a < 3; a++ {
+						if a > 0 {
+							time.Sleep(180 * time.Millisecond)
+						}
+						if res, err = next(ctx, req); err == nil {
+							break
+						}
+					}
+					return res, err
+				}
+			})
+			cs := svc.NewClientSet(cn, "http://verif.local", append(svc.ProtoOpts(protocol, "proto"), connect.WithInterceptors(retry))...)
+			t0 := time.Now()
+			ctx, cancel := context.WithDeadline(context.Background(), t0.Add(total))
+			_ = cs.Do(ctx, svc.Unary, "x", nil, []*gen.Msg{{Id: 1}})
+			cancel()
+			mu.Lock()
+			as := attempts
+			mu.Unlock()
+			run.Eval(fmt.Sprintf("client-retry|%s|attempts=%d", protocol, len(as)))
+			detail := map[string]any{"protocol": protocol, "deadline_in_ns": int64(total)}
+			if len(as) < 2 {
+				run.Inconclusive("retry interceptor: fewer than two attempts reached the transport")
+				continue
+			}
+			for k, a := range as {
+				run.Count("client.headers.checked", 1)
+				run.Count("client.retry.attempts", 1)
+				if len(a.hdr) != 1 {
+					detail["attempt"], detail["header"] = k+1, a.hdr
+					run.Violation(key+"/header-count", fmt.Sprintf("attempt %d carries %d timeout headers", k+1, len(a.hdr)), detail)
+					break
+				}
+				var T time.Duration
+				if protocol == "connect" {
+					ms, ok := refcodec.ParseConnectTimeout(a.hdr[0])
+					if !ok {
+						run.Violation(key+"/grammar", "timeout outside the grammar: "+a.hdr[0], detail)
+						break
+					}
+					T = time.Duration(ms) * time.Millisecond
+				} else {
+					v, unit, ok := refcodec.ParseGRPCTimeout(a.hdr[0])
+					if !ok {
+						run.Violation(key+"/grammar", "timeout outside the grammar: "+a.hdr[0], detail)
+						break
+					}
+					T = time.Duration(v * unit)
+				}
+				// the header of attempt k was written after attempt k-1 had reached
+				// the transport, so at most this much time was left
+				left := total
+				if k > 0 {
+					left = total - as[k-1].t.Sub(t0)
+				}
+				if T > left {
+					detail["attempt"], detail["header"], detail["time_left_at_most_ns"] = k+1, a.hdr[0], int64(left)
+					run.Violation(key+"/extended", fmt.Sprintf("attempt %d of a retried call announces a timeout of %v although at most %v were left: the deadline seen by the server moves out", k+1, T, left), detail)
+					break
+				}
+			}
+		}
+	}
 	// sliding deadlines: a context whose deadline is always a fixed (tiny)
 	// distance ahead, so that the remaining time at encoding is known exactly
 	// without racing the clock
